@@ -271,7 +271,7 @@ Section Text.
   Proof.
     induction es as [|[[i j] v] t IH]; intros acc Hs Hb Hacc.
     - rewrite app_nil_r. reflexivity.
-    - cbn [map read_sparse_lines]. cbn [entry_row view_line l_i l_j l_v fst snd tok_int tok_val].
+    - cbn [map read_sparse_lines]. cbn [entry_row view_line l_empty is_nil l_i l_j l_v fst snd tok_int tok_val].
       inversion Hb as [|? ? [Hi Hj] Hb']; subst. cbn [fst snd] in *.
       replace ((i <? nl) && (j <? nc)) with true by lia.
       rewrite map_set_append.
